@@ -970,8 +970,8 @@ func (e *asEngine) eventMonitors() {
 			sup, _ := strconv.Atoi(p[1])
 			child, _ := strconv.Atoi(p[2])
 			e.decided[child]++
-			if p[3] == "6" {
-				e.escalated[sup]++
+			if d, _ := strconv.Atoi(p[3]); d < 1 || d > 5 {
+				e.escalated[sup]++ // Escalate, and any value outside the defined range (escalated by definition)
 			}
 		case "killed-event":
 			cid, _ := strconv.Atoi(p[1])
@@ -1430,7 +1430,7 @@ func (e *asEngine) escalationMatrix(c *Ctx) {
 		reps = 4
 	}
 	for rep := 0; rep < reps; rep++ {
-		for _, decT := range []string{"1", "2", "3", "4", "5", "51", "24", "6"} {
+		for _, decT := range []string{"1", "2", "3", "4", "5", "51", "24", "6", "7", "0"} { // 7, 0: outside the defined range
 			for kindT := 1; kindT <= 2; kindT++ {
 				for kindM := 1; kindM <= 2; kindM++ {
 					for depth := 1; depth <= 2; depth++ {
@@ -1512,7 +1512,7 @@ func (e *asEngine) stashScenarios(c *Ctx) {
 		reps = 5
 	}
 	for rep := 0; rep < reps; rep++ {
-		for _, dec := range []string{"1", "2", "3", "4", "5", "6", "k", "p"} {
+		for _, dec := range []string{"1", "2", "3", "4", "5", "6", "7", "k", "p"} {
 			for _, hooks := range []int{0, 1, 2, 4, 8, 32} {
 				if hooks != 0 && dec != "1" && dec != "2" {
 					continue
